@@ -85,7 +85,13 @@ func (s *sndSUT) observeOnce() sndObs {
 		q = strings.Join(parts, ",")
 	}
 	qs := queueSUT{mergeSUT: s.mergeSUT, cons: s.cons, conIdx: s.conIdx}
-	o.text = fmt.Sprintf("tok=%d exit=%s q=%s pend=%s proc=%s down=%s", o.tok, wire.B(o.exited), q, qs.showMap(snap.Pending), qs.showMap(snap.Processing), wire.B(snap.ShuttingDown))
+	pend := qs.showMap(snap.Pending)
+	if s.stopped || snap.ShuttingDown {
+		// once the server is stopping / the queue shutting down, which re-queued mail is still picked up
+		// depends on the order in which parked pushes take their exits: not compared
+		q, pend = "*", "*"
+	}
+	o.text = fmt.Sprintf("tok=%d exit=%s q=%s pend=%s proc=%s down=%s", o.tok, wire.B(o.exited), q, pend, qs.showMap(snap.Processing), wire.B(snap.ShuttingDown))
 	return o
 }
 
@@ -120,7 +126,7 @@ func (s *sndSUT) settle() string {
 		if s.atRest(o) && (stable == 0 || o.text == last) {
 			stable++
 			last = o.text
-			if stable >= 6 {
+			if stable >= 8 {
 				return o.text
 			}
 		} else {
@@ -131,7 +137,7 @@ func (s *sndSUT) settle() string {
 			s.unsettled = true
 			return o.text + " UNSETTLED"
 		}
-		time.Sleep(300 * time.Microsecond)
+		time.Sleep(400 * time.Microsecond)
 	}
 }
 
